@@ -282,6 +282,30 @@ def do_gc(cx, res):
     pre, post = res["pre"], res["post"]
     pre_by_key = {r["key"]: r for r in pre}
     cx.stats[("uni:" if uni else "gc:") + c.get("class", "")] += 1
+    fired = [ev for ev in res.get("events") or [] if ev["t"] == "fault"]
+    if fired:
+        # C14_failed_pass_harmless: an RPC answered with an error / a cancelled context fails the pass (failure is propagated) and
+        # leaves every key untouched or resolved by its transaction's outcome; the retry pass (result class pass2) completes the job
+        cx.stats["gc-feature:fault:" + fired[0].get("s", "")] += 1
+        cx.oracle(res["err"] != "", res, "C14_partition(an RPC error / cancellation fails the pass)", "fault %s fired but the pass reported success" % fired)
+        pre_by_key = {r["key"]: r for r in res["pre"]}
+        post_by_key = {r["key"]: r for r in res["post"]}
+        bad = []
+        for r0, r1 in zip(res["pre"], res["post"]):
+            c0, c1, cr = canon_rec_str(m_rec(r0)), canon_rec_str(m_rec(r1)), resolved(pre_by_key, r0, sp)
+            if c1 != c0 and c1 != cr:
+                bad.append({"pre": r0, "post": r1, "expected_resolved": cr})
+        cx.oracle(not bad, res, "C14_failed_pass_harmless(each key untouched or resolved by its transaction's outcome)", json.dumps(bad[:3]))
+        bad_out = []
+        for r0 in res["pre"]:
+            l0 = r0["lock"]
+            if l0 and l0["kind"] != "pess":
+                a, b = committed_at(pre_by_key, l0["primary"], l0["start"]), committed_at(post_by_key, l0["primary"], l0["start"])
+                if a != b:
+                    bad_out.append({"txn": l0["start"], "primary": l0["primary"], "before": a, "after": b})
+        cx.oracle(not bad_out, res, "C14_failed_pass_harmless(per-transaction outcome)", json.dumps(bad_out[:3]))
+        cx.sigs.add(sig(c))
+        return
     cx.oracle(res["err"] == "", res, "C14_no_old_lock(pass succeeds)", "GC lock resolution failed: " + res["err"])
     if res["err"] != "":
         return
